@@ -1,5 +1,4 @@
-\* the lead decided by the model: any symbol value / alignment (TLC must find an inadmissible resolution: the
-\* value is rounded UP to the section alignment)
+\* the repaired walk on any symbol value / alignment
 CONSTANTS
   MaxSyms = 2
   Values = {0, 8, 16, 24}
@@ -8,5 +7,5 @@ CONSTANTS
   RequireAligned = FALSE
 INIT Init
 NEXT Next
-INVARIANTS ResolutionAdmissible
+INVARIANTS ResolutionAdmissible FoundWhenPresent
 CHECK_DEADLOCK FALSE
